@@ -460,35 +460,33 @@ theorem sp_strsv_accepts_valid (a : TrsvArgs) (h : trsv.valid SLU_S a = true) : 
   exact firstOffender_of_allValid _ h
 example : trsv.valid SLU_S (Witness.trsvC SLU_S) = true ∧ sp_strsvCheck (Witness.trsvC SLU_S) = 0 := by decide
 
-theorem sp_ctrsv_code_table (a : TrsvArgs) : sp_ctrsvCheck a = firstOffender (Coded.trsv false a) := by
-  simp only [sp_ctrsvCheck, sp_ctrsvChain, Coded.trsv, trsv.violates_1, trsv.violates_3, trsv.shape_4, trsv.shape_5, Bool.false_and]
+theorem sp_ctrsv_code_table (a : TrsvArgs) : sp_ctrsvCheck a = firstOffender (Coded.trsv true a) := by
+  simp only [sp_ctrsvCheck, sp_ctrsvChain, Coded.trsv, trsv.violates_1, trsv.violates_3, trsv.shape_4, trsv.shape_5, Bool.true_and]
   table_norm; enum_unfold; chain_steps
-theorem sp_ctrsv_first_offender_partial (a : TrsvArgs) (hx : Coded.trsvExcl false SLU_C a) : sp_ctrsvCheck a = trsv.docInfo SLU_C a := by
-  rw [sp_ctrsv_code_table, Coded.trsv_eq_doc false SLU_C a hx]
-example : Coded.trsvExcl false SLU_C (Witness.trsvBadDiag SLU_C) ∧ sp_ctrsvCheck (Witness.trsvBadDiag SLU_C) = -3 := by decide
+theorem sp_ctrsv_first_offender_partial (a : TrsvArgs) (hx : Coded.trsvExcl true SLU_C a) : sp_ctrsvCheck a = trsv.docInfo SLU_C a := by
+  rw [sp_ctrsv_code_table, Coded.trsv_eq_doc true SLU_C a hx]
+example : Coded.trsvExcl true SLU_C (Witness.trsvBadDiag SLU_C) ∧ sp_ctrsvCheck (Witness.trsvBadDiag SLU_C) = -3 := by decide
 theorem sp_ctrsv_types_unchecked : trsv.docInfo SLU_C (Witness.trsvBadLtype SLU_C) = -4 ∧ sp_ctrsvCheck (Witness.trsvBadLtype SLU_C) = 0 := by decide
 
-theorem sp_ctrsv_C_rejected : trsv.valid SLU_C (Witness.trsvC SLU_C) = true ∧ sp_ctrsvCheck (Witness.trsvC SLU_C) = -2 := by decide
-theorem sp_ctrsv_accepts_valid_partial (a : TrsvArgs) (hC : isLetter a.trans 67 = false) (h : trsv.valid SLU_C a = true) :
-    sp_ctrsvCheck a = 0 := by
-  rw [sp_ctrsv_first_offender_partial a (Coded.trsv_valid_excl false SLU_C a (fun _ => hC) h)]
+theorem sp_ctrsv_accepts_valid (a : TrsvArgs) (h : trsv.valid SLU_C a = true) : sp_ctrsvCheck a = 0 := by
+  rw [sp_ctrsv_first_offender_partial a (Coded.trsv_valid_excl true SLU_C a (fun hc => by cases hc) h)]
   exact firstOffender_of_allValid _ h
-example : trsv.valid SLU_C (Witness.trsvOk SLU_C) = true ∧ sp_ctrsvCheck (Witness.trsvOk SLU_C) = 0 := by decide
+example : trsv.valid SLU_C (Witness.trsvC SLU_C) = true ∧ sp_ctrsvCheck (Witness.trsvC SLU_C) = 0 := by decide
 
-theorem sp_ztrsv_code_table (a : TrsvArgs) : sp_ztrsvCheck a = firstOffender (Coded.trsv false a) := by
-  simp only [sp_ztrsvCheck, sp_ztrsvChain, Coded.trsv, trsv.violates_1, trsv.violates_3, trsv.shape_4, trsv.shape_5, Bool.false_and]
+
+theorem sp_ztrsv_code_table (a : TrsvArgs) : sp_ztrsvCheck a = firstOffender (Coded.trsv true a) := by
+  simp only [sp_ztrsvCheck, sp_ztrsvChain, Coded.trsv, trsv.violates_1, trsv.violates_3, trsv.shape_4, trsv.shape_5, Bool.true_and]
   table_norm; enum_unfold; chain_steps
-theorem sp_ztrsv_first_offender_partial (a : TrsvArgs) (hx : Coded.trsvExcl false SLU_Z a) : sp_ztrsvCheck a = trsv.docInfo SLU_Z a := by
-  rw [sp_ztrsv_code_table, Coded.trsv_eq_doc false SLU_Z a hx]
-example : Coded.trsvExcl false SLU_Z (Witness.trsvBadDiag SLU_Z) ∧ sp_ztrsvCheck (Witness.trsvBadDiag SLU_Z) = -3 := by decide
+theorem sp_ztrsv_first_offender_partial (a : TrsvArgs) (hx : Coded.trsvExcl true SLU_Z a) : sp_ztrsvCheck a = trsv.docInfo SLU_Z a := by
+  rw [sp_ztrsv_code_table, Coded.trsv_eq_doc true SLU_Z a hx]
+example : Coded.trsvExcl true SLU_Z (Witness.trsvBadDiag SLU_Z) ∧ sp_ztrsvCheck (Witness.trsvBadDiag SLU_Z) = -3 := by decide
 theorem sp_ztrsv_types_unchecked : trsv.docInfo SLU_Z (Witness.trsvBadLtype SLU_Z) = -4 ∧ sp_ztrsvCheck (Witness.trsvBadLtype SLU_Z) = 0 := by decide
 
-theorem sp_ztrsv_C_rejected : trsv.valid SLU_Z (Witness.trsvC SLU_Z) = true ∧ sp_ztrsvCheck (Witness.trsvC SLU_Z) = -2 := by decide
-theorem sp_ztrsv_accepts_valid_partial (a : TrsvArgs) (hC : isLetter a.trans 67 = false) (h : trsv.valid SLU_Z a = true) :
-    sp_ztrsvCheck a = 0 := by
-  rw [sp_ztrsv_first_offender_partial a (Coded.trsv_valid_excl false SLU_Z a (fun _ => hC) h)]
+theorem sp_ztrsv_accepts_valid (a : TrsvArgs) (h : trsv.valid SLU_Z a = true) : sp_ztrsvCheck a = 0 := by
+  rw [sp_ztrsv_first_offender_partial a (Coded.trsv_valid_excl true SLU_Z a (fun hc => by cases hc) h)]
   exact firstOffender_of_allValid _ h
-example : trsv.valid SLU_Z (Witness.trsvOk SLU_Z) = true ∧ sp_ztrsvCheck (Witness.trsvOk SLU_Z) = 0 := by decide
+example : trsv.valid SLU_Z (Witness.trsvC SLU_Z) = true ∧ sp_ztrsvCheck (Witness.trsvC SLU_Z) = 0 := by decide
+
 
 /-! ### sp_?gemv — deviation: the documented types of A (position 3) are never tested.  No `info` argument:
     `Check` is −(position handed to xerbla_) -/
